@@ -134,10 +134,11 @@ var propDrivers = map[string]*propDriver{
 				Bounded: "the package's own literals, every string up to length 3 over the syntax alphabet, malformed range fragments, and strings mixing multi-byte runes, invalid UTF-8 and NUL with version characters (up to four tokens, also embedded in range syntax)",
 				Run:     func() SolveResult { return falsifierAsObligation(w, fn, panicFalsifier) }})
 		}
+		vcs = append(vcs, w.terminationVCs()...)
 		return vcs
 	}, notes: []string{
 		"C06 claims: absence of run-time panics (index, slice bounds, nil dereference, failed type assertion, division, make with negative length) for every repository function under its contract, callee preconditions at every call site, and value-xor-error for every constructor",
-		"termination is proved only implicitly for unit-stride loops (the auto-summary bounds the iteration count by the loop guard); while-style loops and the time bound (at most quadratic) are not decided by this technique",
+		"termination: every loop of every repository function is a range loop, a counted loop with a fixed bound, or carries a `decreases` clause whose obligations are discharged by SMT (F.termination, back end govc-loopshape + F.loopN.decreases@latch); the static call graph has no cycle (callgraph.acyclic); library callees are assumed to terminate; the time bound (at most quadratic) is not decided by this technique",
 	}},
 	"C04": {extra: func(w *World, tier string) []VC { return w.versShapeVCs(tier) },
 		notes: []string{"C04's interval semantics is a bounded stand-in (exhaustive enumeration of comparator shapes on the real vers.Contains), never counted as proved; the per-function contracts of the VERS chain that are proved are listed under discharged"}},
@@ -313,6 +314,35 @@ func checkCmd(args []string) int {
 		}
 	}
 
+	// termination: F.termination stands on the variant obligations of F.  Their names carry block numbers, which move
+	// with the code, so they are taken from this run and not from the baseline: a variant that is no longer established
+	// turns the (stably named, claimed) F.termination obligation into a failure.
+	{
+		badVariant := map[string]string{}
+		recBad := ""
+		for _, r := range results {
+			if strings.Contains(r.vc.Name, ".decreases") && r.res.Status != "unsat" {
+				if strings.Contains(r.vc.Name, ".recursion.decreases") {
+					recBad = r.vc.Name
+				} else if badVariant[r.vc.Fn] == "" {
+					badVariant[r.vc.Fn] = r.vc.Name
+				}
+			}
+		}
+		for i := range results {
+			r := &results[i]
+			if r.vc.Kind != "term" || r.res.Status != "unsat" {
+				continue
+			}
+			if strings.HasSuffix(r.vc.Name, ".termination") && badVariant[r.vc.Fn] != "" {
+				r.res.Status, r.res.Output = "unknown", "the declared variant is not established: "+badVariant[r.vc.Fn]
+			}
+			if r.vc.Name == "callgraph.acyclic" && recBad != "" {
+				r.res.Status, r.res.Output = "unknown", "the measure of a recursive function is not established: "+recBad
+			}
+		}
+	}
+
 	if *mkBaseline {
 		// obligations seen to discharge only some of the time are never claimed (baseline/unstable.txt, one name per line)
 		unstable := map[string]bool{}
@@ -373,6 +403,10 @@ func checkCmd(args []string) int {
 	)
 	// premises that are themselves not discharged taint their users (fixpoint)
 	badFn := map[string]bool{}
+	recordedAsFinding := map[string]bool{}
+	for _, f := range findings {
+		recordedAsFinding[stripTag(f.Obligation)] = true
+	}
 	isPremiseKind := func(k string) bool {
 		return k == "post" || strings.HasPrefix(k, "law.") || k == "bounded.law" || k == "lemma" || k == "unsupported"
 	}
@@ -393,8 +427,8 @@ func checkCmd(args []string) int {
 	for changed := true; changed; {
 		changed = false
 		for _, r := range results {
-			if r.vc.ExpectSat || !isPremiseKind(r.vc.Kind) {
-				continue
+			if r.vc.ExpectSat || !isPremiseKind(r.vc.Kind) || r.vc.Local || recordedAsFinding[stripTag(r.vc.Name)] {
+				continue // (a recorded finding is never handed to anybody as a premise, so it cannot taint a user)
 			}
 			if (r.res.Status != "unsat" || conditional[r.vc.Name] != "") && !badFn[r.vc.Fn] {
 				badFn[r.vc.Fn] = true
@@ -671,11 +705,15 @@ func condForBaseline(results []vcResult, r vcResult) bool {
 			cond[x.vc.Name] = true
 		}
 	}
+	recorded := map[string]bool{}
+	for _, f := range loadFindings() {
+		recorded[stripTag(f.Obligation)] = true
+	}
 	for changed := true; changed; {
 		changed = false
 		for _, x := range results {
-			if x.vc.ExpectSat || !isPremiseKind(x.vc.Kind) {
-				continue
+			if x.vc.ExpectSat || !isPremiseKind(x.vc.Kind) || x.vc.Local || recorded[stripTag(x.vc.Name)] {
+				continue // same exemptions as in the check itself: not a premise of anybody
 			}
 			if (x.res.Status != "unsat" || cond[x.vc.Name]) && !badFn[x.vc.Fn] {
 				badFn[x.vc.Fn] = true
@@ -728,4 +766,18 @@ func writeMissingReplay(prop, name string, unsupported, loadErrs []string) strin
 	}, "", " ")
 	os.WriteFile(path, b, 0o644)
 	return path
+}
+
+// stripTag removes the property tag of a post obligation name (pkg.F.post[C09]/label -> pkg.F.post/label): a finding
+// recorded under one property excludes the clause as a premise under every property.
+func stripTag(name string) string {
+	i := strings.Index(name, ".post[")
+	if i < 0 {
+		return name
+	}
+	j := strings.Index(name[i:], "]")
+	if j < 0 {
+		return name
+	}
+	return name[:i+5] + name[i+j+1:]
 }
